@@ -634,8 +634,27 @@ class Sib:
         them (through vmap or directly; a record argument is taken apart into its fields).  The helper's parameter
         list is private to the class -- its order, its names and whether several arrays travel as one record are free
         -- so the roles of its inputs are read off the one place that fixes them: the call.  None: no such call."""
+        from ..symex import substitute
+        b = self.helper_call_binding(cls, helper, caller)
+        if b is None:
+            return None
+        h = self.E(cls, helper)
+        sub: Dict[T, T] = {}
+        for pname, actual in b.items():
+            P = sym(pname)
+            sub[P] = actual
+            if actual.op == "record":
+                names = self.ev.record_fields(actual.args[0]) or []
+                for i, (fname, v) in enumerate(zip(names, actual.args[1:])):
+                    sub[mk("attr", P, fname)] = v
+                    sub[getitem(P, const(i))] = v
+        return substitute(h.result, sub)
+
+    def helper_call_binding(self, cls: str, helper: str, caller: str) -> Optional[Dict[str, T]]:
+        """{parameter of the private helper: the term `caller` passes for it} at the (vmapped or direct) call of
+        self.<helper> inside `caller`; None when there is no such call"""
         from ..model import bind_call
-        from ..symex import call_parts, func_name, match_vmap, subterms, substitute, transparent
+        from ..symex import call_parts, func_name, match_vmap, subterms, transparent
         h, c = self.E(cls, helper), self.E(cls, caller)
         site = None
         for x in subterms(c.result):
@@ -654,17 +673,7 @@ class Sib:
         ok, _, mapping = bind_call(h.fi, len(pos), list(kws), True)
         if not ok:
             return None
-        sub: Dict[T, T] = {}
-        for pname, m in mapping.items():
-            actual = pos[m[1]] if m[0] == "pos" else kws[m[1]]
-            P = sym(pname)
-            sub[P] = actual
-            if actual.op == "record":
-                names = self.ev.record_fields(actual.args[0]) or []
-                for i, (fname, v) in enumerate(zip(names, actual.args[1:])):
-                    sub[mk("attr", P, fname)] = v
-                    sub[getitem(P, const(i))] = v
-        return substitute(h.result, sub)
+        return {pname: (pos[m[1]] if m[0] == "pos" else kws[m[1]]) for pname, m in mapping.items()}
 
     def noci_vs_uhf(self):
         nd = self.E("noci", "_calc_energy_single_det")
